@@ -110,6 +110,13 @@ def _absolute(ref, stage):
         return ref
 
 
+def _without_override(snap):
+    out = dict(snap)
+    out["conf"] = {n: ({k: v for k, v in c.items() if k != "override"} if isinstance(c, dict) else c)
+                   for n, c in snap["conf"].items()}
+    return out
+
+
 def snapshot(exp):
     g = exp.experimentGraph
     nodes = sorted(g.graph.nodes)
@@ -349,7 +356,12 @@ def run_case(case, ctx: Ctx, loc: str):
             where = "cycle %d (after %d loop iteration(s))" % (cycles, iterations)
             ctx.rec.label("load:updates-instance-files" if op[1] else "load:read-only")
             w = snapshot(exp)
-            exp.experimentGraph.configuration.store_unreplicated_flowir_to_disk()
+            if len(op) < 3 or op[2]:
+                exp.experimentGraph.configuration.store_unreplicated_flowir_to_disk()
+            else:
+                # rely on the store that instantiate_dowhile_next_iteration(..., store=True) performed itself (this is
+                # what a running controller does: nobody stores explicitly before the next restart)
+                ctx.rec.label("load:after-implicit-store-only")
             before = _read(path)
             try:
                 loaded = D.Experiment.experimentFromInstance(inst, platform=None if plat == "default" else plat,
@@ -362,6 +374,20 @@ def run_case(case, ctx: Ctx, loc: str):
             compare(w, l, patched, where, case, ctx)
             compare_stored(before, after_load, where + (", file rewritten by the load" if op[1] else
                                                         ", file after a load that must not update it"), ctx)
+            if plat != "default":
+                # tools such as einspect load an instance directory without naming a platform: the stored description
+                # must carry the selected platform's settings by itself (read-only load, files untouched)
+                try:
+                    anon = D.Experiment.experimentFromInstance(inst, platform=None, updateInstanceConfiguration=False)
+                except Exception as e:
+                    raise Violation("own-instance-does-not-load-without-platform:" + type(e).__name__,
+                                    "%s: experimentFromInstance(platform=None) raised %s: %s" % (
+                                        where, type(e).__name__, str(e)[-600:]))
+                # the unapplied `override` blocks themselves are bookkeeping, not resolved configuration: a load for
+                # another platform keeps or drops them, what counts is every resolved option and variable
+                compare(_without_override(w), _without_override(snapshot(anon)), patched,
+                        where + " [reloaded without naming the platform]", case, ctx)
+                ctx.rec.label("load:without-platform")
             loaded.experimentGraph.configuration.store_unreplicated_flowir_to_disk()
             compare_stored(before, _read(path), where + ", explicit store by the loaded experiment", ctx)
             exp = loaded
